@@ -31,6 +31,10 @@ struct TState {
 struct Shared {
     m: Mutex<Vec<TState>>,
     cv: Condvar,
+    /// per thread: true only while the thread executes code under test (not while it is inside the
+    /// scheduler's own gate/bookkeeping code, where it may sleep on the scheduler's own mutex/condvar).
+    /// A thread can only be classified as *blocked* while this is true.
+    in_user_code: Vec<std::sync::atomic::AtomicBool>,
 }
 
 thread_local! {
@@ -46,6 +50,8 @@ pub fn pause(label: &str) {
 }
 
 fn gate(sh: &Arc<Shared>, me: usize, label: &str) {
+    use std::sync::atomic::Ordering::SeqCst;
+    sh.in_user_code[me].store(false, SeqCst);
     let mut g = sh.m.lock().unwrap();
     g[me].phase = Phase::AtGate(label.to_string());
     g[me].go = false;
@@ -53,6 +59,8 @@ fn gate(sh: &Arc<Shared>, me: usize, label: &str) {
     while !g[me].go {
         g = sh.cv.wait(g).unwrap();
     }
+    drop(g);
+    sh.in_user_code[me].store(true, SeqCst);
 }
 
 fn os_tid() -> Option<u32> {
@@ -112,6 +120,7 @@ pub fn run(bodies: Vec<Body>, prefix: &[usize]) -> Execution {
     let sh = Arc::new(Shared {
         m: Mutex::new((0..n).map(|_| TState { phase: Phase::Running, go: false, tid: None }).collect()),
         cv: Condvar::new(),
+        in_user_code: (0..n).map(|_| std::sync::atomic::AtomicBool::new(false)).collect(),
     });
     for (i, body) in bodies.into_iter().enumerate() {
         let sh2 = sh.clone();
@@ -125,6 +134,7 @@ pub fn run(bodies: Vec<Body>, prefix: &[usize]) -> Execution {
                 }
                 gate(&sh2, i, "start");
                 let r = crate::quiet_catch(body);
+                sh2.in_user_code[i].store(false, std::sync::atomic::Ordering::SeqCst);
                 let mut g = sh2.m.lock().unwrap();
                 g[i].phase = match r {
                     Ok(()) => Phase::Done,
@@ -151,6 +161,18 @@ pub fn run(bodies: Vec<Body>, prefix: &[usize]) -> Execution {
         if enabled.is_empty() {
             exec.blocked = (0..n).filter(|&i| g[i].phase == Phase::Blocked).collect();
             exec.deadlock = !exec.blocked.is_empty();
+            if std::env::var_os("VERIF_THRSCHED_DEBUG").is_some() && exec.deadlock {
+                for i in 0..n {
+                    let tid = g[i].tid.unwrap_or(0);
+                    eprintln!(
+                        "thrsched debug: thread {i} phase={:?} in_user={} stat={:?} syscall={:?}",
+                        g[i].phase,
+                        sh.in_user_code[i].load(std::sync::atomic::Ordering::SeqCst),
+                        std::fs::read_to_string(format!("/proc/self/task/{tid}/stat")).unwrap_or_default().split(')').nth(1).map(|x| x.chars().take(4).collect::<String>()),
+                        std::fs::read_to_string(format!("/proc/self/task/{tid}/syscall")).unwrap_or_default().trim().to_string()
+                    );
+                }
+            }
             for i in 0..n {
                 if let Phase::Panicked(m) = &g[i].phase {
                     exec.panics.push((i, m.clone()));
@@ -211,48 +233,67 @@ fn release_all(sh: &Arc<Shared>) {
 }
 
 /// Wait until no thread is in phase Running (each is at a gate, done, or confirmed blocked).
-/// A Blocked thread that wakes up is noticed because it changes its own phase at the next gate / end;
-/// to keep the window sound we also re-examine Blocked threads: one that is no longer asleep in a
-/// futex goes back to Running.
+///
+/// /proc is sampled *without* holding the scheduler mutex (a thread entering a gate must never have
+/// to sleep on it for long), and a thread is only ever considered blocked while it is executing code
+/// under test (`in_user_code`). A Blocked thread that is observed awake again goes back to Running.
 fn wait_quiescent(sh: &Arc<Shared>) {
-    let mut asleep_count: Vec<u32> = Vec::new();
+    use std::sync::atomic::Ordering::SeqCst;
+    let n = sh.in_user_code.len();
+    let mut asleep_count: Vec<u32> = vec![0; n];
     loop {
-        let mut g = sh.m.lock().unwrap();
-        if asleep_count.len() != g.len() {
-            asleep_count = vec![0; g.len()];
-        }
-        // re-examine blocked threads
-        for i in 0..g.len() {
-            if g[i].phase == Phase::Blocked {
-                if let Some(tid) = g[i].tid {
-                    if !asleep_in_futex(tid) {
-                        g[i].phase = Phase::Running;
-                        asleep_count[i] = 0;
-                    }
-                }
+        // snapshot
+        let (phases, tids): (Vec<Phase>, Vec<Option<u32>>) = {
+            let g = sh.m.lock().unwrap();
+            (g.iter().map(|t| t.phase.clone()).collect(), g.iter().map(|t| t.tid).collect())
+        };
+        // sample without the lock
+        let mut asleep = vec![false; n];
+        for i in 0..n {
+            if matches!(phases[i], Phase::Running | Phase::Blocked) {
+                asleep[i] = sh.in_user_code[i].load(SeqCst) && tids[i].map(asleep_in_futex).unwrap_or(false) && sh.in_user_code[i].load(SeqCst);
             }
         }
-        let running: Vec<usize> = (0..g.len()).filter(|&i| g[i].phase == Phase::Running).collect();
-        if running.is_empty() {
-            return;
-        }
-        let (g2, _) = sh.cv.wait_timeout(g, Duration::from_micros(300)).unwrap();
-        g = g2;
-        for &i in &running {
-            if g[i].phase != Phase::Running {
+        let mut g = sh.m.lock().unwrap();
+        let mut any_running = false;
+        for i in 0..n {
+            // only act if the phase did not change while we were sampling
+            if g[i].phase != phases[i] {
+                // a thread moved while we were sampling (it may have released a lock and woken others):
+                // the samples are stale, take another round before concluding anything
+                any_running = true;
+                asleep_count[i] = 0;
                 continue;
             }
-            match g[i].tid {
-                Some(tid) if asleep_in_futex(tid) => {
-                    asleep_count[i] += 1;
-                    // 4 consecutive sleepy samples (>= ~1 ms) while not at a gate: blocked on a lock of the code under test
-                    if asleep_count[i] >= 4 {
-                        g[i].phase = Phase::Blocked;
+            match g[i].phase {
+                Phase::Blocked => {
+                    if !asleep[i] {
+                        g[i].phase = Phase::Running;
+                        asleep_count[i] = 0;
+                        any_running = true;
                     }
                 }
-                _ => asleep_count[i] = 0,
+                Phase::Running => {
+                    if asleep[i] {
+                        asleep_count[i] += 1;
+                        // consecutive sleepy samples (>= ~2 ms) in code under test: blocked on one of its locks
+                        if asleep_count[i] >= 6 {
+                            g[i].phase = Phase::Blocked;
+                        } else {
+                            any_running = true;
+                        }
+                    } else {
+                        asleep_count[i] = 0;
+                        any_running = true;
+                    }
+                }
+                _ => {}
             }
         }
+        if !any_running {
+            return;
+        }
+        let _ = sh.cv.wait_timeout(g, Duration::from_micros(300)).unwrap();
     }
 }
 
@@ -323,61 +364,20 @@ pub fn explore<O>(
 }
 
 // ---------------------------------------------------------------------------------------------
-// Observed variants (added for C26): identical scheduling, plus a callback at every quiescent
-// decision point (all logical threads parked at a gate, blocked, or finished) — including the
-// final one where nothing is enabled any more. The callback runs on the scheduler thread while no
-// logical thread is running, so it may read the shared state under test.
+// Variant for code under test that takes no locks (added for C33): a released thread is waited for
+// until it reaches its next gate or finishes; the /proc futex sampling (which can misclassify a
+// thread that is merely slow to be scheduled on a heavily loaded machine, making replays diverge)
+// is not used. Not suitable when the code under test can block on a lock held by a parked thread.
+// ---------------------------------------------------------------------------------------------
 
-/// [`wait_quiescent`], then confirm every thread it classified as blocked: a thread that was woken from a
-/// lock of the code under test may be caught asleep for a moment on the scheduler's own mutex (which
-/// `wait_quiescent` holds while it samples /proc) and would wrongly stay `Blocked` — a false deadlock, or a
-/// decision taken while that thread is still running. Here the samples are taken with the scheduler mutex
-/// released; a thread is accepted as blocked only if it stays asleep in a futex and does not change phase over
-/// `CONFIRM` consecutive samples.
-fn wait_quiescent_stable(sh: &Arc<Shared>) {
-    const CONFIRM: usize = 8;
-    loop {
-        wait_quiescent(sh);
-        let blocked: Vec<(usize, Option<u32>)> = {
-            let g = sh.m.lock().unwrap();
-            (0..g.len()).filter(|&i| g[i].phase == Phase::Blocked).map(|i| (i, g[i].tid)).collect()
-        };
-        if blocked.is_empty() {
-            return;
-        }
-        let mut stable = true;
-        for _ in 0..CONFIRM {
-            std::thread::sleep(Duration::from_micros(400));
-            let asleep: Vec<bool> = blocked.iter().map(|(_, tid)| tid.map(asleep_in_futex).unwrap_or(false)).collect();
-            let mut g = sh.m.lock().unwrap();
-            for ((i, _), a) in blocked.iter().zip(&asleep) {
-                if g[*i].phase != Phase::Blocked {
-                    stable = false; // it moved on by itself (reached a gate or finished)
-                } else if !*a {
-                    g[*i].phase = Phase::Running;
-                    stable = false;
-                }
-            }
-            if g.iter().any(|t| t.phase == Phase::Running) {
-                stable = false;
-            }
-            drop(g);
-            if !stable {
-                break;
-            }
-        }
-        if stable {
-            return;
-        }
-    }
-}
-
-/// Like [`run`], calling `observe(k)` at the k-th quiescent point (k = number of decisions taken so far).
-pub fn run_observed(bodies: Vec<Body>, prefix: &[usize], observe: &mut dyn FnMut(usize)) -> Execution {
+/// Like [`run`], but never classifies a thread as blocked: waits (up to 60 s, then machinery error)
+/// until every released thread is at a gate or finished.
+pub fn run_lockfree(bodies: Vec<Body>, prefix: &[usize]) -> Execution {
     let n = bodies.len();
     let sh = Arc::new(Shared {
         m: Mutex::new((0..n).map(|_| TState { phase: Phase::Running, go: false, tid: None }).collect()),
         cv: Condvar::new(),
+        in_user_code: (0..n).map(|_| std::sync::atomic::AtomicBool::new(false)).collect(),
     });
     for (i, body) in bodies.into_iter().enumerate() {
         let sh2 = sh.clone();
@@ -385,10 +385,6 @@ pub fn run_observed(bodies: Vec<Body>, prefix: &[usize], observe: &mut dyn FnMut
             .name(format!("vthr-{i}"))
             .spawn(move || {
                 CUR.with(|c| *c.borrow_mut() = Some((sh2.clone(), i)));
-                {
-                    let mut g = sh2.m.lock().unwrap();
-                    g[i].tid = os_tid();
-                }
                 gate(&sh2, i, "start");
                 let r = crate::quiet_catch(body);
                 let mut g = sh2.m.lock().unwrap();
@@ -405,9 +401,16 @@ pub fn run_observed(bodies: Vec<Body>, prefix: &[usize], observe: &mut dyn FnMut
     let mut exec = Execution { points: vec![], deadlock: false, blocked: vec![], panics: vec![], diverged: None };
     let mut last: Option<usize> = None;
     loop {
-        wait_quiescent_stable(&sh);
-        observe(exec.points.len());
-        let g = sh.m.lock().unwrap();
+        // wait until nobody is Running
+        let deadline = Instant::now() + Duration::from_secs(60);
+        let mut g = sh.m.lock().unwrap();
+        while g.iter().any(|t| t.phase == Phase::Running) {
+            if Instant::now() > deadline {
+                crate::machinery_error("thrsched::run_lockfree: a released thread did not reach a gate within 60 s");
+            }
+            let (g2, _) = sh.cv.wait_timeout(g, Duration::from_millis(50)).unwrap();
+            g = g2;
+        }
         let mut enabled: Vec<usize> = (0..n).filter(|&i| matches!(g[i].phase, Phase::AtGate(_))).collect();
         if let Some(l) = last {
             if let Some(pos) = enabled.iter().position(|&x| x == l) {
@@ -416,8 +419,6 @@ pub fn run_observed(bodies: Vec<Body>, prefix: &[usize], observe: &mut dyn FnMut
             }
         }
         if enabled.is_empty() {
-            exec.blocked = (0..n).filter(|&i| g[i].phase == Phase::Blocked).collect();
-            exec.deadlock = !exec.blocked.is_empty();
             for i in 0..n {
                 if let Phase::Panicked(m) = &g[i].phase {
                     exec.panics.push((i, m.clone()));
@@ -425,15 +426,12 @@ pub fn run_observed(bodies: Vec<Body>, prefix: &[usize], observe: &mut dyn FnMut
             }
             return exec;
         }
-        let gates = enabled
-            .iter()
-            .map(|&i| if let Phase::AtGate(l) = &g[i].phase { l.clone() } else { String::new() })
-            .collect();
-        drop(g);
+        let gates = enabled.iter().map(|&i| if let Phase::AtGate(l) = &g[i].phase { l.clone() } else { String::new() }).collect();
         let k = exec.points.len();
         let chosen = if k < prefix.len() {
             if prefix[k] >= enabled.len() {
                 exec.diverged = Some(format!("prefix choice {} out of range {} at point {k}", prefix[k], enabled.len()));
+                drop(g);
                 release_all(&sh);
                 return exec;
             }
@@ -444,83 +442,34 @@ pub fn run_observed(bodies: Vec<Body>, prefix: &[usize], observe: &mut dyn FnMut
         let t = enabled[chosen];
         exec.points.push(Point { enabled, gates, chosen });
         last = Some(t);
-        let mut g = sh.m.lock().unwrap();
         g[t].phase = Phase::Running;
         g[t].go = true;
         sh.cv.notify_all();
     }
 }
 
-/// Like [`explore`], with `observe(&obs, k)` called at every quiescent point of every execution.
-///
-/// Every re-execution of a prefix must reproduce the enabled sets and gate labels recorded when the prefix was
-/// first executed ("a prefix replayed must reproduce its recorded observations"). Lock hand-overs inside the code
-/// under test are done by the OS, not by this scheduler, so a replay can occasionally take another path on a
-/// loaded machine: such an execution is discarded and repeated (up to `RETRIES` times, then machinery error).
-/// For the same reason every accepted execution is run twice with the same choices and must pass through the
-/// same decision points both times (so each reported execution costs two runs of the real code);
-/// the number of discarded executions is the third element of the returned tuple.
-pub fn explore_observed<O>(
+/// Stateless DFS exactly as [`explore`], with the function that performs one execution supplied by
+/// the caller ([`run`] or [`run_lockfree`]).
+pub fn explore_with<O>(
+    runner: &dyn Fn(Vec<Body>, &[usize]) -> Execution,
     mk: &dyn Fn() -> (Vec<Body>, O),
-    observe: &mut dyn FnMut(&O, usize),
     check: &mut dyn FnMut(&Execution, O),
     preemption_bound: Option<usize>,
     max_executions: u64,
-) -> (ExploreStats, bool, u64) {
-    const RETRIES: usize = 8;
+) -> (ExploreStats, bool) {
     let mut stats = ExploreStats { executions: 0, decision_points: 0, max_points: 0, deadlocks: 0 };
-    // (choices, expected (enabled, gates) at each point of the prefix)
-    type Expect = Vec<(Vec<usize>, Vec<String>)>;
-    let mut stack: Vec<(Vec<usize>, Expect)> = vec![(vec![], vec![])];
+    let mut stack: Vec<Vec<usize>> = vec![vec![]];
     let mut capped = false;
-    let mut retries = 0u64;
-    while let Some((prefix, expect)) = stack.pop() {
+    while let Some(prefix) = stack.pop() {
         if stats.executions >= max_executions {
             capped = true;
             break;
         }
-        let mut attempt = 0;
-        let (x, obs) = loop {
-            let (bodies, obs) = mk();
-            let x = run_observed(bodies, &prefix, &mut |k| observe(&obs, k));
-            let mut problem = x.diverged.clone();
-            if problem.is_none() {
-                for (i, (en, ga)) in expect.iter().enumerate() {
-                    match x.points.get(i) {
-                        Some(p) if &p.enabled == en && &p.gates == ga => {}
-                        other => {
-                            problem = Some(format!(
-                                "point {i}: recorded enabled {en:?} at {ga:?}, replay saw {:?}",
-                                other.map(|p| (&p.enabled, &p.gates))
-                            ));
-                            break;
-                        }
-                    }
-                }
-            }
-            if problem.is_none() {
-                // confirm the part beyond the prefix: the same choices must lead through the same decision points
-                let (bodies2, obs2) = mk();
-                let x2 = run_observed(bodies2, &x.choices(), &mut |k| observe(&obs2, k));
-                let same = x2.diverged.is_none()
-                    && x2.points.len() == x.points.len()
-                    && x2.points.iter().zip(&x.points).all(|(a, b)| a.enabled == b.enabled && a.gates == b.gates && a.chosen == b.chosen)
-                    && x2.deadlock == x.deadlock;
-                if !same {
-                    problem = Some("two executions of the same choices went through different decision points".to_string());
-                }
-            }
-            match problem {
-                None => break (x, obs),
-                Some(d) => {
-                    attempt += 1;
-                    retries += 1;
-                    if attempt > RETRIES {
-                        crate::machinery_error(&format!("thrsched: replay diverged {attempt} times: {d}"));
-                    }
-                }
-            }
-        };
+        let (bodies, obs) = mk();
+        let x = runner(bodies, &prefix);
+        if let Some(d) = &x.diverged {
+            crate::machinery_error(&format!("thrsched: replay diverged: {d}"));
+        }
         stats.executions += 1;
         stats.decision_points += x.points.len() as u64;
         stats.max_points = stats.max_points.max(x.points.len());
@@ -548,11 +497,10 @@ pub fn explore_observed<O>(
                 }
                 let mut np: Vec<usize> = x.choices()[..i].to_vec();
                 np.push(alt);
-                let ne: Expect = x.points[..=i].iter().map(|q| (q.enabled.clone(), q.gates.clone())).collect();
-                stack.push((np, ne));
+                stack.push(np);
             }
         }
         check(&x, obs);
     }
-    (stats, capped, retries)
+    (stats, capped)
 }
